@@ -277,18 +277,14 @@ impl Number {
 
         let num = self.0.abs();
 
-        if is_compressed && num < 1.0 {
-            buffer.push_str(
-                format!("{:.10}", num)[1..]
-                    .trim_end_matches('0')
-                    .trim_end_matches('.'),
-            );
+        let formatted = format!("{:.10}", num);
+        let digits = formatted.trim_end_matches('0').trim_end_matches('.');
+
+        // the leading zero is dropped from the *rounded* text: `0.99999999999` rounds to `1`
+        if is_compressed && digits.starts_with("0.") {
+            buffer.push_str(&digits[1..]);
         } else {
-            buffer.push_str(
-                format!("{:.10}", num)
-                    .trim_end_matches('0')
-                    .trim_end_matches('.'),
-            );
+            buffer.push_str(digits);
         }
 
         if buffer.is_empty() || buffer == "-" || buffer == "-0" {
